@@ -240,8 +240,14 @@ def confirm(run, v):
     if v['rule'] == 'RUNTIME':
         st = {'decls': v['decls'], 'attrs': v.get('attrs') or []}
         sp = [[v['spelling']] if k == v['decl'] else [] for k in range(len(v['decls']))]
-        fails = compile_probe.run_sets([st], [sp])
-        return bool(fails), {'declarations': v['decls'], 'attrs': st['attrs'], 'spelling': v['spelling'], 'observed': fails}
+        # the macro iterates over HashMaps: which of two clashing children comes first can differ from one expansion to the next,
+        # so a run-time mismatch is re-tried over a few fresh expansions
+        fails, tries = [], 0
+        for tries in range(1, 7):
+            fails = compile_probe.run_sets([st], [sp], salt=f'expansion {tries}')
+            if fails:
+                break
+        return bool(fails), {'declarations': v['decls'], 'attrs': st['attrs'], 'spelling': v['spelling'], 'observed': fails, 'expansions_tried': tries}
     decls = v['decls']
     attrs = v.get('attrs') or []
     want = ref_set_compiles(decls, attrs)
